@@ -194,27 +194,38 @@ def isStableSortByStart (inp out : List Member) : Bool :=
   sortedByStart out && out.isPerm inp &&
   inp.all fun m => out.filter (fun x => x.start == m.start) == inp.filter (fun x => x.start == m.start)
 
+/-- the members named by the reported iteration order `(isGene, idx)` -/
+def recoverOrder (chain : List Member) (order : List (Bool × Nat)) : Option (List Member) :=
+  order.mapM fun k => chain.find? fun m => m.isGene == k.1 && m.idx == k.2
+
+/-- length, emptiness and iteration order -/
+def okCommon (chain : List Member) (a : AcollAns) : Bool :=
+  a.len == chain.length && a.empty == chain.isEmpty &&
+  (match recoverOrder chain a.order with
+   | some out => isStableSortByStart chain out
+   | none => false)
+
+/-- bounds inferred from the members: none for an empty collection, else (min start, max end) -/
+def okBoundsInferred (chain : List Member) (b : Option (Nat × Nat)) : Bool :=
+  if chain.isEmpty then b.isNone
+  else match b with
+    | some (s, e) => isMin s (chain.map (·.start)) && isMax e (chain.map (·.stop))
+    | none => false
+
 /-- `genes`, `fcs` as passed to the constructor; `bnd` = the explicit (start, end) arguments -/
 def okAcoll (genes fcs : List Member) (bnd : Option Nat × Option Nat) (ans : Option AcollAns) : Bool :=
   let chain := genes ++ fcs
   match bnd with
-  | (some _, none) | (none, some _) => ans.isNone       -- documented: both or neither
-  | (bs, be) =>
-    if (match bs, be with | some s, some e => decide (e < s) | _, _ => false) then ans.isNone   -- not an interval
-    else
+  | (some _, none) => ans.isNone                       -- documented: both or neither
+  | (none, some _) => ans.isNone
+  | (some s, some e) =>
+    if e < s then ans.isNone                           -- not an interval
+    else match ans with
+      | none => false
+      | some a => okCommon chain a && a.bounds == some (s, e)
+  | (none, none) =>
     match ans with
     | none => false
-    | some a =>
-      a.len == chain.length && a.empty == chain.isEmpty &&
-      (match a.order.mapM (fun (k : Bool × Nat) => chain.find? (fun m => m.isGene == k.1 && m.idx == k.2)) with
-       | some out => out.length == a.order.length && isStableSortByStart chain out
-       | none => false) &&
-      (match bs, be with
-       | some s, some e => a.bounds == some (s, e)
-       | _, _ =>
-         if chain.isEmpty then a.bounds.isNone
-         else match a.bounds with
-           | some (s, e) => isMin s (chain.map (·.start)) && isMax e (chain.map (·.stop))
-           | none => false)
+    | some a => okCommon chain a && okBoundsInferred chain a.bounds
 
 end BioCantor.Spec.Agg
